@@ -280,6 +280,7 @@ type Actor struct {
 	owner  string // client / worker / operator name
 	gate   chan struct{}
 	sendG  chan error
+	authG  chan struct{}
 	state  string // running | gate | send | done
 	cancel context.CancelFunc
 	ctx    context.Context
@@ -417,6 +418,9 @@ func NewWorld(tr *common.Trace, c Config, script isccScript) *World {
 		WorkerWithNoSynchronizationsTimeout:  time.Duration(c.WorkerTimeout) * Unit,
 	}
 	allow := auth.NewStaticAuthorizer(func(digest.InstanceName) bool { return true })
+	// WaitExecution and KillOperations authorize between two critical
+	// sections; the gate lets the driver run other sections in that window.
+	windowed := gatedAuthorizer{w}
 	router := routing.NewSimpleActionRouter(
 		platform.ActionKeyExtractor,
 		[]invocation.KeyExtractor{levelKeyExtractor{w, 0}, levelKeyExtractor{w, 1}},
@@ -429,7 +433,7 @@ func NewWorld(tr *common.Trace, c Config, script isccScript) *World {
 		u[14] = byte(w.uuidSeq >> 8)
 		u[15] = byte(w.uuidSeq)
 		return u, nil
-	}, w.cfg, 1<<20, router, allow, allow, allow, allow)
+	}, w.cfg, 1<<20, router, windowed, allow, windowed, allow)
 	scheduler.VerifSetTracer(w.bq, w)
 	return w
 }
@@ -484,6 +488,34 @@ func (w *World) digestLabel(s string) string {
 		}
 	}
 	return s
+}
+
+// gatedAuthorizer allows everything, but parks WaitExecution and
+// KillOperations calls in the unlocked authorization window until the
+// driver lets them continue.
+type gatedAuthorizer struct{ w *World }
+
+func (g gatedAuthorizer) Authorize(ctx context.Context, instanceNames []digest.InstanceName) []error {
+	w := g.w
+	w.mu.Lock()
+	a := w.byGoid[goid()]
+	w.mu.Unlock()
+	if a != nil && (a.kind == "wait" || a.kind == "kill") && a.sections > 0 {
+		w.mu.Lock()
+		a.state = "auth"
+		w.mu.Unlock()
+		<-a.authG
+		w.mu.Lock()
+		a.state = "running"
+		w.mu.Unlock()
+	}
+	return make([]error, len(instanceNames))
+}
+
+// ReleaseAuth lets actor a leave the authorization window.
+func (w *World) ReleaseAuth(a *Actor) {
+	a.authG <- struct{}{}
+	synctest.Wait()
 }
 
 // --- tracer (called from the build queue) -----------------------------------
@@ -708,7 +740,7 @@ func platLabel(s string) string {
 func (w *World) newActor(kind, owner string) *Actor {
 	w.actorSeq++
 	ctx, cancel := context.WithCancel(context.Background())
-	a := &Actor{name: fmt.Sprintf("%s#%d", owner, w.actorSeq), kind: kind, owner: owner, gate: make(chan struct{}), sendG: make(chan error), state: "running", ctx: ctx, cancel: cancel}
+	a := &Actor{name: fmt.Sprintf("%s#%d", owner, w.actorSeq), kind: kind, owner: owner, gate: make(chan struct{}), sendG: make(chan error), authG: make(chan struct{}), state: "running", ctx: ctx, cancel: cancel}
 	w.actors = append(w.actors, a)
 	return a
 }
